@@ -5,6 +5,8 @@ and (b) an independent brute-force enumeration of paths in plain Python on the
 graph read directly from block.logic -- the search (implementation vs the
 graph-theoretic definition in the property text)."""
 import contextlib
+import itertools
+import math
 import io
 import os
 from fractions import Fraction
@@ -19,11 +21,17 @@ import nlx
 RULE = ('random API-built designs from gen_designs (3..16 ops, registers, memories, ROMs) plus '
         'hand-shaped families (F18 three-net reconvergence, diamonds of depth 2..5, register rings, '
         'register self-loops through the queried wire, memory write->read loops with 1..2 ports, '
-        'balanced equal-delay trees that hit cp_limit) x integer gate_delay_funcs tables '
+        'memories with 1..3 read and 1..3 write ports under every limited/unlimited max_read_ports/'
+        'max_write_ports declaration, balanced equal-delay trees that hit cp_limit) x integer gate_delay_funcs tables '
         '(unit / random constant / width-dependent / free wires; r and @ negative), each used as is and '
         'scaled by 2**-40, 2**-20, 2**20 (exact dyadic floats, results unscaled exactly) x cp_limit in '
         '{1,2,3,100} x tech/ffoverhead x up to 10 (quick) or 30 (thorough) (src,dst) queries per design '
-        '(Input->Output, reachable pairs, src=dst loops, unreachable pairs).  Every other case is analysed '
+        '(Input->Output, reachable pairs, src=dst loops, unreachable pairs), each asked as a single pair AND '
+        'through every other argument shape of paths(): list/set/tuple collections of sources and destinations '
+        '(the loop sources are also destinations), paths(), paths(src) and paths(dst=) defaults; every entry '
+        '[s][d] is compared with the independent simple-path enumeration.  The default delay table is compared '
+        'numerically with the documented per-op formulas (memory read: bits and max(#read nets,#write nets)).  '
+        'Every other case is analysed '
         'while its Block is NOT the working block (working block reset and an unrelated decoy design '
         're-using its input names built first; block= passed, fanout(w) on the foreign wires), the others '
         'through the default working-block route; every 4th query passes dst_nets.  A case is one design + '
@@ -37,9 +45,10 @@ TRUSTED = ['Analysis/PathSpec.v: cpath/wsum/is_longest (maximum over register-fr
            'Register of the summed delays), chain/visits/simple_path (net paths incl. the memory write->read '
            'hop; no net and no wire repeated), reads/fanout_is (cardinality of the set of argument positions)',
            'py/checks/C17.py brute-force enumerators (all_path_sums, max_paths, simple_paths, position count)']
-ASSUMPTIONS = ['delays are integers: float rounding of the default log-based delay table is abstracted; the '
-               'default table is compared only through delay-free facts (sources at 0, zero-delay w/c/s, '
-               'critical paths follow an argmax argument and end at a max wire)',
+ASSUMPTIONS = ['delays are integers in the Coq model: float rounding of the default log-based delay table is '
+               'abstracted; the default table is compared through delay-free facts and, in floats with relative '
+               'tolerance 1e-9, with the longest path under the documented per-op default delays (constants '
+               'hand-copied in py/checks/C17.py default_delay)',
                'custom gate_delay_funcs give a negative delay exactly to r and @ (a negative delay on a '
                'combinational gate makes TimingAnalysis raise KeyError at the first reader)',
                'max_freq: float arithmetic read as exact rational arithmetic (relative tolerance 1e-12)',
@@ -172,6 +181,32 @@ def shaped(rng, kind):
             m[pyrtl.concat(wa[0], ~wa[1])] <<= pyrtl.MemBlock.EnabledWrite(binop(rng, rd2, rd, w), i[0])
         o = pyrtl.Output(w, 'o')
         o <<= binop(rng, rd, rd2, w) if rng.random() < 0.5 else ~rd
+    elif kind == 'memports':
+        # every combination of limited / unlimited port declarations x several read and write ports
+        aw = rng.choice([1, 2, 3])
+        nr, nw = rng.randint(1, 3), rng.randint(1, 3)
+        mrp = rng.choice([None, nr, nr + 1])
+        mwp = rng.choice([None, nw, nw + 2])
+        m = pyrtl.MemBlock(bitwidth=w, addrwidth=aw, name='m', max_read_ports=mrp,
+                           max_write_ports=mwp, asynchronous=True)
+        ra = pyrtl.Input(aw, 'ra')
+        rds = []
+        for j in range(nr):
+            rds.append(pyrtl.as_wires(m[ra] if j == 0 else m[ra ^ pyrtl.Const(j % (1 << aw), bitwidth=aw)]))
+        for j in range(nw):
+            wa = pyrtl.Input(aw, 'wa%d' % j)
+            wd = pyrtl.Input(w, 'wd%d' % j)
+            if rng.random() < 0.4:
+                wd = binop(rng, rng.choice(rds), wd, w)   # write data depends on a read: a loop
+            if rng.random() < 0.6:
+                m[wa] <<= pyrtl.MemBlock.EnabledWrite(wd, pyrtl.Input(1, 'we%d' % j))
+            else:
+                m[wa] <<= wd
+        acc = rds[0]
+        for x in rds[1:]:
+            acc = binop(rng, acc, x, w)
+        o = pyrtl.Output(w, 'o')
+        o <<= ~acc
     elif kind == 'tree':
         depth = rng.randint(2, 4)
         leaves = [pyrtl.Input(w, 'l%d' % j) for j in range(rng.randint(1, 3))]
@@ -190,7 +225,7 @@ def shaped(rng, kind):
     return pyrtl.working_block()
 
 
-SHAPES = ['f18', 'diamond', 'diamond', 'ring', 'srcloop', 'memloop', 'memloop', 'tree']
+SHAPES = ['f18', 'diamond', 'memports', 'ring', 'srcloop', 'memloop', 'diamond', 'memports', 'memloop', 'tree']
 
 
 def make_foreign(block):
@@ -237,6 +272,7 @@ class Graph(object):
         self.producer = {}
         self.readers = {}
         self.readports = {}
+        self.writeports = {}
         for n in self.nets:
             for d in n.dests:
                 self.producer[d] = n
@@ -247,6 +283,62 @@ class Graph(object):
                     self.readers.setdefault(a, []).append(n)
             if n.op == 'm':
                 self.readports.setdefault(n.op_param[0], []).append(n)
+            if n.op == '@':
+                self.writeports.setdefault(n.op_param[0], []).append(n)
+
+
+def mem_shape(g, memid, mem):
+    """(bits, ports, is_rom) of a memory, read off the netlist: ports = max(#read nets, #write nets)"""
+    return (2 ** mem.addrwidth * mem.bitwidth,
+            max(len(g.readports.get(memid, [])), len(g.writeports.get(memid, []))),
+            isinstance(mem, pyrtl.RomBlock))
+
+
+def default_delay(g, n):
+    """the documented default delay of a gate (TimingAnalysis docstring / table, 130nm, ps)"""
+    op = n.op
+    if op in 'r@':
+        return -1
+    if op == 'm':
+        bits, ports, _ = mem_shape(g, n.op_param[0], n.op_param[1])
+        return 270 * 0.130 ** 1.38 * bits ** 0.25 * ports ** 1.30 + 1.05
+    width = len(n.args[0])
+    const = {'~': 48.5, '&': 98.5, '|': 105.3, '^': 135.07, 'n': 66.0, 'w': 0, 'x': 138.0, 'c': 0, 's': 0}
+    if op in const:
+        return const[op]
+    if op in '+-':
+        return 184.0 * math.log(float(width), 2) + 18.9
+    if op in '<>':
+        return 101.9 * math.log(float(width), 2) + 105.4
+    if op == '=':
+        return 60.1 * math.log(float(width), 2) + 147
+    if op == '*':
+        if width == 1:
+            return 98.57
+        if width == 2:
+            return 200.17
+        return 549.1 * math.log(width, 2) - 391.7
+    raise ValueError(op)
+
+
+def default_longest(g):
+    memo = {}
+
+    def lp(x):
+        if x in memo:
+            return memo[x]
+        if isinstance(x, SRC_TYPES):
+            r = 0
+        else:
+            n = g.producer[x]
+            r = max(lp(a) for a in n.args) + default_delay(g, n)
+        memo[x] = r
+        return r
+    return lp
+
+
+def close(a, b):
+    return abs(a - b) <= 1e-9 * max(1.0, abs(a), abs(b))
 
 
 class TooBig(Exception):
@@ -552,42 +644,108 @@ def analyse(ctx, i, found, exprs, cases, fq_exprs, fq_cases):
                  {'wire': w.name, 'expected': exp, 'got': got})
             break
     # paths
-    any_path = False
-    for (s, d), got in zip(queries, impl_paths):
+    any_path = [False]
+
+    def check_pair(s, d, got, how):
+        """one entry result[s][d] of a paths() call (made as `how`) vs the independent enumeration"""
         try:
             exp = simple_paths(g, s, d, budget)
         except TooBig:
             ctx.count('paths oracle', 'skipped (too big)')
-            continue
+            return
         gs = {tuple(nix[n] for n in p) for p in got}
         es = {tuple(nix[n] for n in p) for p in exp}
-        any_path = any_path or bool(es)
+        any_path[0] = any_path[0] or bool(es)
         ctx.count('paths per query', min(len(es), 5))
         ctx.count('query kind', 'src=dst' if s is d else ('has paths' if es else 'no path'))
-        rep = {'src': s.name, 'dst': d.name,
+        rep = {'src': s.name, 'dst': d.name, 'call': how,
                'expected_simple_paths': [net_strs([dump.nets[k] for k in p]) for p in sorted(es)],
                'got': [net_strs(p) for p in got]}
         if len(gs) != len(got):
-            viol('paths:duplicate', 'paths(%s,%s) returns the same path twice' % (s.name, d.name), rep)
+            viol('paths:duplicate', '%s: [%s][%s] holds the same path twice' % (how, s.name, d.name), rep)
         for p in sorted(es - gs):
             suffix = any(len(q) < len(p) and p[len(p) - len(q):] == q for q in gs)
             if suffix and s is not d:
                 viol('paths:reconvergent-suffix-filter',
-                     'paths(%s,%s) drops a simple path because another returned path is a suffix of it '
-                     '(reconvergent fan-out): %d of %d simple paths returned' % (s.name, d.name, len(gs & es), len(es)),
+                     '%s: [%s][%s] drops a simple path because another returned path is a suffix of it '
+                     '(reconvergent fan-out): %d of %d simple paths returned' % (how, s.name, d.name, len(gs & es), len(es)),
                      rep)
             else:
-                viol('paths:missing-other', 'paths(%s,%s) misses a simple path' % (s.name, d.name), rep)
+                viol('paths:missing-other', '%s: [%s][%s] misses a simple path' % (how, s.name, d.name), rep)
         for p in sorted(gs - es):
             rev = any(p[k] in p[:k] and dump.nets[p[k]].op == 'm' and k > 0 and dump.nets[p[k - 1]].op == '@'
                       for k in range(len(p)))
+            wires_seen = [s] + [dump.nets[k].dests[0] for k in p if dump.nets[k].dests]
+            back = any(x is s for x in wires_seen[1:-1]) or (s is not d and wires_seen[-1] is s)
             if rev:
                 viol('paths:readport-revisited',
-                     'paths(%s,%s) returns a non-simple path: after a memory write net the read port is '
-                     'appended without the `not in curr_path` test, so a read net occurs twice' % (s.name, d.name), rep)
+                     '%s: [%s][%s] holds a non-simple path: after a memory write net the read port is '
+                     'appended without the `not in curr_path` test, so a read net occurs twice' % (how, s.name, d.name), rep)
+            elif back:
+                viol('paths:walk-through-src',
+                     '%s: [%s][%s] holds a walk that comes back to the source wire before reaching the '
+                     'destination (not a simple path)' % (how, s.name, d.name), rep)
             else:
-                viol('paths:extra-other', 'paths(%s,%s) returns a path that is not a simple src->dst path'
-                     % (s.name, d.name), rep)
+                viol('paths:extra-other', '%s: [%s][%s] holds a path that is not a simple src->dst path'
+                     % (how, s.name, d.name), rep)
+
+    def same_keys(res, srcs, dsts, how):
+        ok = (len(res) == len(srcs) and all(any(k is x for x in srcs) for k in res)
+              and all(len(res[k]) == len(dsts) and all(any(e is x for x in dsts) for e in res[k]) for k in res))
+        if not ok:
+            viol('paths:result-keys', '%s: the result is not keyed by exactly the requested sources x destinations' % how,
+                 {'call': how, 'sources': [w.name for w in srcs], 'destinations': [w.name for w in dsts],
+                  'got': {k.name: sorted(e.name for e in res[k]) for k in res}})
+        return ok
+
+    for (s, d), got in zip(queries, impl_paths):
+        check_pair(s, d, got, 'paths(%s, %s)' % (s.name, d.name))
+
+    # every argument shape: collections for src and dst (list / set / tuple, the source also among
+    # the destinations whenever the design has loops), and the None defaults
+    def dedupe(ws):
+        out = []
+        for x in ws:
+            if not any(x is y for y in out):
+                out.append(x)
+        return out
+    loops = [s for s, d in queries if s is d][:2]
+    others = [(s, d) for s, d in queries if s is not d][:2]
+    msrc = dedupe(loops + [s for s, _ in others])
+    mdst = dedupe(loops + [d for _, d in others])
+    cont = [list, set, tuple][i % 3]
+    impl_multi = []
+    if msrc and mdst:
+        srcarg = msrc[0] if (len(msrc) == 1 and i % 2) else cont(msrc)
+        how = 'paths(%s, %s(%s))' % (msrc[0].name if srcarg is msrc[0] else '%s(%s)' % (
+            cont.__name__, ', '.join(w.name for w in msrc)), cont.__name__, ', '.join(w.name for w in mdst))
+        res = pyrtl.paths(srcarg, cont(mdst), **bk)
+        if same_keys(res, msrc, mdst, how):
+            for s in msrc:
+                row = []
+                for d in mdst:
+                    check_pair(s, d, res[s][d], how)
+                    row.append((wid[d], sorted(tuple(nix[n] for n in p) for p in res[s][d])))
+                impl_multi.append((wid[s], row))
+            ctx.count('multi-wire paths() call', 'source also a destination'
+                      if any(x is y for x in msrc for y in mdst) else 'disjoint')
+    all_in = [w for w in dump.wires if isinstance(w, pyrtl.Input)]
+    all_out = [w for w in dump.wires if isinstance(w, pyrtl.Output)]
+    rdef = pyrtl.paths(**bk)
+    if same_keys(rdef, all_in, all_out, 'paths()'):
+        for s, d in list(itertools.product(all_in, all_out))[:4]:
+            check_pair(s, d, rdef[s][d], 'paths()')
+    if queries:
+        s0, d0 = queries[i % len(queries)]
+        r1 = pyrtl.paths(s0, **bk)
+        if same_keys(r1, [s0], all_out, 'paths(%s)' % s0.name):
+            for d in all_out[:2]:
+                check_pair(s0, d, r1[s0][d], 'paths(%s)' % s0.name)
+        r2 = pyrtl.paths(dst=d0, **bk)
+        if same_keys(r2, all_in, [d0], 'paths(dst=%s)' % d0.name):
+            for s in all_in[:2]:
+                check_pair(s, d0, r2[s][d0], 'paths(dst=%s)' % d0.name)
+    any_path = any_path[0]
 
     # ---- order independence (seeded worklist hook in Block.__iter__)
     if os.environ.get('PYRTL_VERIF') == '1':
@@ -621,6 +779,41 @@ def analyse(ctx, i, found, exprs, cases, fq_exprs, fq_cases):
         okd = okd and isinstance(fw, SRC_TYPES) and dm[cur] == td.max_length()
     if not okd:
         viol('timing:default-table-facts', 'default-table TimingAnalysis violates a delay-free fact', {})
+    # the documented default delays: every wire = longest path under the default table, where the
+    # delay of a memory read is the documented function of the memory's bits and of
+    # ports = max(#read nets, #write nets) of that memory in the netlist
+    lpd = default_longest(g)
+    for w in dump.wires:
+        if not close(dm[w], lpd(w)):
+            viol('timing:default-delays', 'default-table timing_map[%s] = %r, longest path under the documented '
+                 'default gate delays = %r' % (w.name, dm[w], lpd(w)),
+                 {'wire': w.name, 'expected': lpd(w), 'got': dm[w],
+                  'memories(name: max_read_ports, max_write_ports, #read nets, #write nets)': {
+                      m.name: [m.max_read_ports, m.max_write_ports, len(g.readports.get(k, [])),
+                               len(g.writeports.get(k, []))] for k, m in sorted(dump.mems.items())}})
+            break
+    dmax = max(lpd(w) for w in dump.wires)
+    if not close(td.max_length(), dmax) or not close(td.max_freq(), 1e6 / (dmax + 189 + 194)):
+        viol('timing:default-max', 'default-table max_length/max_freq = %r/%r, expected %r/%r'
+             % (td.max_length(), td.max_freq(), dmax, 1e6 / (dmax + 189 + 194)), {})
+    impl_mem = []
+    helper = getattr(pa, '_bits_ports_and_isrom_from_memory', None)
+    for memid, mem in sorted(dump.mems.items()):
+        exp = mem_shape(g, memid, mem)
+        if helper is None:
+            ctx.count('memory shape helper', 'absent')
+            impl_mem.append((memid, (exp[0], exp[1], int(exp[2]))))
+            continue
+        got = tuple(helper(mem))
+        impl_mem.append((memid, (got[0], got[1], int(got[2]))))
+        ctx.count('memory ports (declared max_read/max_write : read nets/write nets)',
+                  '%s/%s : %d/%d' % (mem.max_read_ports, mem.max_write_ports,
+                                     len(g.readports.get(memid, [])), len(g.writeports.get(memid, []))))
+        if (got[0], got[1], bool(got[2])) != exp:
+            viol('timing:memory-shape', 'memory %s: (bits, ports, is_rom) used for the default delay = %r, the netlist '
+                 'has %r (ports = max(#read nets, #write nets))' % (mem.name, got, exp),
+                 {'memory': mem.name, 'max_read_ports': mem.max_read_ports, 'max_write_ports': mem.max_write_ports,
+                  'expected': list(exp), 'got': list(got)})
 
     # ---- max_freq (spec: exact rational formula; model: translated formula)
     tech = rng.choice([7, 45, 65, 130, 250, 1000, rng.randint(1, 500)])
@@ -640,11 +833,14 @@ def analyse(ctx, i, found, exprs, cases, fq_exprs, fq_cases):
         fq_cases.append((i, got, tech, ff, impl_max))
 
     # ---- queue the model evaluation
-    exprs.append('c17_case %s %s %d %s' % (dump.coq(), coq_table(tab), cp_limit,
-                                           nlx.pairs([(wid[s], wid[d]) for s, d in queries])))
+    exprs.append('c17_case %s %s %d %s %s %s' % (dump.coq(), coq_table(tab), cp_limit,
+                                                 nlx.pairs([(wid[s], wid[d]) for s, d in queries]),
+                                                 nlx.zlist([wid[w] for w in msrc] if impl_multi else []),
+                                                 nlx.zlist([wid[w] for w in mdst] if impl_multi else [])))
     ncomb = sum(1 for n in g.nets if n.op not in 'r@')
     cases.append(dict(i=i, kind=kind, style=style, rep=base_rep, impl_tm=impl_tm, impl_keys=impl_keys,
                       impl_max=impl_max, impl_cp=impl_cp, impl_fan=impl_fan, limit_hit=limit_hit,
+                      impl_mem=impl_mem, impl_multi=impl_multi,
                       impl_paths=[sorted(tuple(nix[n] for n in p) for p in ps) for ps in impl_paths],
                       queries=[(s.name, d.name) for s, d in queries], cp_limit=cp_limit,
                       nbase=sum(1 for w in ta.timing_map if isinstance(w, SRC_TYPES)),
@@ -689,7 +885,7 @@ def run(ctx, only=None):
         ctx.case(c['key'], nontrivial=c['nontrivial'], sample=sample)
         if results is None:
             continue
-        wf, m_tm, m_keys, m_max, m_cp, m_fan, m_paths = results[ci]
+        wf, m_tm, m_keys, m_max, m_cp, m_fan, m_paths, m_mem, m_multi = results[ci]
         rep = dict(c['rep'], queries=c['queries'])
         if wf != 1:
             ctx.model_mismatch('a hypothesis of the C17 theorems (wfb / delays negative exactly on r,@ / register '
@@ -716,6 +912,12 @@ def run(ctx, only=None):
         if mp != c['impl_paths']:
             k = [a != b for a, b in zip(mp, c['impl_paths'])].index(True)
             bad.append(('paths%r' % (c['queries'][k],), mp[k], c['impl_paths'][k]))
+        mm = [(k, tuple(v)) for k, v in m_mem]
+        if mm != [(k, tuple(v)) for k, v in c['impl_mem']]:
+            bad.append(('memory (bits, ports, is_rom)', mm, c['impl_mem']))
+        mmu = [(x, [(y, sorted(tuple(p) for p in ps)) for y, ps in row]) for x, row in m_multi]
+        if mmu != c['impl_multi']:
+            bad.append(('paths() with collections', mmu, c['impl_multi']))
         for what, model, impl in bad:
             ctx.model_mismatch('pyrtl.analysis and the Coq model disagree on %s (case %d)' % (what, c['i']),
                                dict(rep, model=model, impl=impl))
